@@ -135,6 +135,7 @@ type Config struct {
 	Trace          bool
 	NoAutoTimers   bool // do not fire virtual timers at quiescence
 	Races          bool // run the happens-before race monitor
+	States         bool // hash schedule prefixes (set by Explore)
 	NoAtomicPoints bool // atomics are not scheduling points (still HB edges)
 }
 
@@ -185,9 +186,11 @@ func (r *Run) Yield(op *Op) {
 	if r.tracing {
 		r.Trace = append(r.Trace, fmt.Sprintf("T%d %s #%d", t.id, op.Kind, r.objID(op.Obj)))
 	}
-	r.h = mix(r.h, uint64(t.id)<<32|hashStr(op.Kind)&0xffffffff)
-	r.h = mix(r.h, uint64(r.objID(op.Obj)))
-	r.stateH[r.h] = struct{}{}
+	if r.cfg.States {
+		r.h = mix(r.h, uint64(t.id)<<32|hashStr(op.Kind)&0xffffffff)
+		r.h = mix(r.h, uint64(r.objID(op.Obj)))
+		r.stateH[r.h] = struct{}{}
+	}
 	t.op = nil
 }
 
@@ -514,6 +517,7 @@ func Explore(cfg Config, body func(), check func(x *Exec) bool) Stats {
 	if cfg.NShard == 0 {
 		cfg.NShard = 1
 	}
+	cfg.States = true
 	stop := false
 	var rec func(prefix []int, depth int, cost int)
 	rec = func(prefix []int, depth int, cost int) {
